@@ -5,6 +5,17 @@ Import ListNotations.
 Open Scope Z_scope.
 Local Open Scope string_scope.
 
+(* at most one committed log per idempotency key, for ALL schedules and any number of requests: the unique index
+   (ledger, idempotency_key) lets an INSERT in only when no live row carries the key; an inserter that finds an in-flight row
+   waits for its transaction to finish and then either conflicts or goes in.  Invariant: ConcProofs.log_ok (lg_keys). *)
+Theorem C13_conc_at_most_one_log : forall hash prefix writers sched,
+  NoDup (filter nonempty (map l_ik (committed_logs (sched_outcome hash prefix writers sched)))).
+Proof. intros. apply unique_keys_committed. apply outcome_log_inv. Qed.
+Print Assumptions C13_conc_at_most_one_log.
+Theorem C13_conc_at_most_one_log_from : forall g sched, log_inv g -> NoDup (filter nonempty (map l_ik (committed_logs (run g sched)))).
+Proof. intros. apply unique_keys_committed. apply log_inv_all_schedules; auto. Qed.
+Print Assumptions C13_conc_at_most_one_log_from.
+
 (* FULL STATEMENT (outcomes): under every schedule every caller gets the original result flagged as a hit or a
    retryable / conflict error, never a business error contradicting the committed outcome.  Refuted: a request that
    missed the key in its lookup and then waits for the winner's row lock reads the balance the winner left and returns
